@@ -331,6 +331,9 @@ class Check:
             a["transitions"].update(rep["transitions"])
             a["intr_sites"].update(tuple(s) for s in rep["intr_sites"])
             a["opaque"] += rep.get("opaque", 0)
+            if rep.get("generator_error"):
+                a.setdefault("generator_errors", []).append({"job": {k: job.get(k) for k in ("batch", "i", "seed")},
+                                                             "error": rep["generator_error"][-600:]})
             a["files_written"] = a.get("files_written", 0) + rep.get("files_written", 0)
             a["sim_time"] = a.get("sim_time", 0.0) + rep.get("sim_time", 0.0)
             a["clock_reads"] = a.get("clock_reads", 0) + rep.get("clock_reads_by_library", 0)
@@ -682,6 +685,9 @@ def cmd_check(tier, seed, nworkers, scale):
             f"fresh+restart {det['fresh_interpreter_equal']}/{det.get('fresh_interpreter_runs', det['seeds'])} wall={wall:.0f}s")
     for ln in lines:
         print(ln)
+    if a.get("generator_errors"):
+        chk.log(f"NOTE {len(a['generator_errors'])} histories ended early because of an exception in the workload generator "
+                f"(first: {a['generator_errors'][0]['error'].splitlines()[-1][:200]})")
     if chk.harness_errors:
         tol = max(2, a["runs"] // 200)
         only_timeouts = all("watchdog" in h["error"] for h in chk.harness_errors)
@@ -766,7 +772,8 @@ def evidence(chk, ref, det, state, wall, t_batches, new, kn):
                        "R3": {"replays": ref["r3_replays"], "agree": ref["r3_agree"], "diverged": len(ref["r3_diverged"])},
                        "fresh_interpreters": ref["interpreters"][:4]},
             "determinism_selftest": det,
-            "opaque_values_seen": a["opaque"], "harness_errors": len(chk.harness_errors), "run_timeouts": a["timeouts"],
+            "opaque_values_seen": a["opaque"], "workload_generator_errors": a.get("generator_errors", [])[:5],
+            "workload_generator_error_count": len(a.get("generator_errors", [])), "harness_errors": len(chk.harness_errors), "run_timeouts": a["timeouts"],
             "truncated_by_wall_cap": chk.truncated, "known_findings_reported": kn,
             "components": {"real": ["htstabilizer (all modules, working tree " + state["src"] + ")", "qiskit", "numpy",
                                     "importlib.resources file reads of the shipped tables"],
